@@ -13,10 +13,13 @@ RULE = (
     "field incl. nested objects, lists, arguments and variables) are subscribed on the asyncio runtime "
     "with source streams of 0-12 events given as async generators and as __anext__ classes with "
     "random await points, from synchronous and coroutine subscription resolvers, with ResolverError "
-    "on seeded events and depths; the response stream is consumed with `async for`; a monitor "
+    "on seeded events and depths; event payloads may be falsy objects, an initial value (root of the "
+    "subscription resolver only) is supplied for half of the streams, and the single root field is "
+    "written plainly, behind inline / named / nested fragments, or repeated under one response key; "
+    "the response stream is consumed with `async for`; a monitor "
     "compares length, order and termination with the source, the k-th result (ordered data, error "
     "paths, error messages) with the reference executor run on event k as root value, and counts "
-    "source events consumed; the four refusal classes (several root fields, no subscription resolver, "
+    "source events consumed; the four refusal classes (several root fields written directly or through fragments, no subscription resolver, "
     "non-subscription operation, runtime without streams) must raise the documented exception with "
     "zero events consumed. Non-trivial = distinct stream with >= 2 events, an error on some event, or "
     "a refusal case."
@@ -63,6 +66,13 @@ class Source(object):
         self._i += 1
         self.consumed += 1
         return self.events[i]
+
+
+class FalsyEvent(dict):
+    """An event payload that is falsy although it carries data (`0`, `""`, `{}` are legal events)."""
+
+    def __bool__(self):
+        return False
 
 
 class SubCase(object):
@@ -142,16 +152,44 @@ def run(ctx):
                 else:
                     continue
                 doc = g.doc
+                root_field = op.selection[0]
+                # the single root field may be written behind fragments or repeated under one response key
+                shape = rng.choice(["plain", "plain", "inline", "inline-untyped", "named", "repeated", "nested-spreads"])
+                if shape == "inline":
+                    op.selection = [opgen.OInline(case.ir.subscription, [root_field])]
+                elif shape == "inline-untyped":
+                    op.selection = [opgen.OInline(None, [root_field])]
+                elif shape == "named":
+                    doc.fragments["SubRoot"] = opgen.OFragment("SubRoot", case.ir.subscription, [root_field])
+                    op.selection = [opgen.OSpread("SubRoot")]
+                elif shape == "repeated":
+                    op.selection = [root_field, opgen.OInline(None, [root_field])]
+                elif shape == "nested-spreads":
+                    doc.fragments["SubInner"] = opgen.OFragment("SubInner", case.ir.subscription, [root_field])
+                    doc.fragments["SubRoot"] = opgen.OFragment("SubRoot", case.ir.subscription, [opgen.OSpread("SubInner")])
+                    op.selection = [opgen.OSpread("SubRoot"), root_field]
+                ctx.count("root-shape:" + shape)
                 text = opgen.document_text(doc)
                 variables = opgen.variable_values(rng, case.sg, op, nested=doc.nested_vars)
                 n_events = rng.choice([0, 1, 2, 3, 5, 8, 12])
                 events = [Obj(case.ir.subscription, "evt-%d-%d-%d" % (ci, ri, k)) for k in range(n_events)]
-                source = Source([case.binding.to_python(e) for e in events], rng, as_class=rng.random() < 0.5)
+                falsy = rng.random() < 0.3
+                payloads = [case.binding.to_python(e) for e in events]
+                if falsy:
+                    payloads = [FalsyEvent(p) if rng.random() < 0.7 else p for p in payloads]
+                    ctx.count("streams_with_falsy_events")
+                source = Source(payloads, rng, as_class=rng.random() < 0.5)
                 case.source = source
                 in_thread = rng.random() < 0.3
+                # the initial value is the root of the subscription resolver only, never of an event
+                initial = None
+                if rng.random() < 0.5:
+                    initial = case.binding.to_python(Obj(case.ir.subscription, "initial-%d-%d" % (ci, ri)))
+                    ctx.count("streams_with_initial_value")
                 witness = {"schema_sdl": case.sdl, "world_seed": case.world.seed, "document": text,
                            "variables": variables, "events": n_events, "source": "class" if source.as_class else "generator",
-                           "async_subscription_resolver": case.async_sub[op.selection[0].name], "in_thread": in_thread}
+                           "async_subscription_resolver": case.async_sub[root_field.name], "in_thread": in_thread,
+                           "falsy_events": falsy, "initial_value": initial is not None}
                 refs = [refexec.reference_result(case.ir, doc, op, variables, case.world, root=e) for e in events]
                 probe = refexec.reference_result(case.ir, doc, op, variables, case.world, root=Obj(case.ir.subscription, "probe"))
                 if probe[0] != "ok" or any(r[0] != "ok" for r in refs):
@@ -166,7 +204,7 @@ def run(ctx):
 
                 async def go():
                     stream = await subscribe(case.schema, parse(text), variables=variables, operation_name="S",
-                                             runtime=rt, initial_value=None)
+                                             runtime=rt, initial_value=initial)
                     return await consume(stream)
 
                 try:
@@ -175,6 +213,16 @@ def run(ctx):
                     ctx.mark_inconclusive("stream consumption exceeded the watchdog")
                     continue
                 except Exception as e:
+                    from py_gql.exc import CoercionError
+
+                    if isinstance(e, CoercionError) and any(len(p) == 1 and k == "argument" for p, k in probe[2]):
+                        # the arguments of the root field cannot be coerced (null variable in a non-null
+                        # argument): the property leaves this class open; the library refuses the
+                        # subscription, which must then happen before any event is consumed
+                        ctx.count("root_field_arguments_not_coercible:refused")
+                        if source.consumed:
+                            ctx.violation("refusal:events-consumed:root-argument-coercion", witness, "consumed=%d" % source.consumed)
+                        continue
                     ctx.violation("subscribe-raises:%s" % type(e).__name__, witness, repr(e)[:300])
                     continue
                 if len(results) != n_events:
@@ -225,7 +273,17 @@ def run(ctx):
                 sub = " { __typename }" if case.ir.kind(S.unwrap(f.type)) in ("object", "interface", "union") else ""
                 return f.name + args + sub
 
-            refusals = [("several-root-fields", "subscription { a: %s b: %s }" % (sel(field), sel(field)), AsyncIORuntime(loop=loop), ExecutionError),
+            two = "a: %s b: %s" % (sel(field), sel(field))
+            several = rng.choice([
+                "subscription { %s }" % two,
+                "subscription { ... on %s { %s } }" % (case.ir.subscription, two),
+                "subscription { ... { %s } }" % two,
+                "subscription { ...F } fragment F on %s { %s }" % (case.ir.subscription, two),
+                "subscription { ...F } fragment F on %s { a: %s ...G } fragment G on %s { b: %s }" % (
+                    case.ir.subscription, sel(field), case.ir.subscription, sel(field)),
+                "subscription { a: %s ... { b: %s } }" % (sel(field), sel(field)),
+            ])
+            refusals = [("several-root-fields", several, AsyncIORuntime(loop=loop), ExecutionError),
                         ("non-subscription-operation", "{ __typename }", AsyncIORuntime(loop=loop), RuntimeError),
                         ("runtime-without-streams", "subscription { %s }" % sel(field), BlockingRuntime(), RuntimeError)]
             if case.no_sub_resolver:
